@@ -10,8 +10,9 @@
    Close waits for its handlers), so further accepts, SetIDs and Closes interleave in between. *)
 From Coq Require Import Strings.String Strings.Byte.
 From Coq Require Import List Arith NArith Bool Lia.
-From Verif Require Import Model.Lifecycle Model.CallLife Model.Graceful
-  Proofs.LifecycleProofs Proofs.PeerProofs Proofs.C07Lemmas.
+From Coq Require Import ZArith.
+From Verif Require Import Model.Lifecycle Model.CallLife Model.Graceful Model.AcceptHooks
+  Proofs.LifecycleProofs Proofs.PeerProofs Proofs.C07Lemmas Proofs.AcceptHooksProofs.
 Import ListNotations.
 
 (* At every quiescent point (no goroutine of any session can move) the index maps an id to
@@ -29,6 +30,63 @@ Theorem C07_healthy_only_after_hooks : forall s,
   reach_sess s -> (st s = Ok -> estab s = true) /\ (rd s <> RNone -> estab s = true).
 Proof. exact healthy_only_after_hooks_lemma. Qed.
 Print Assumptions C07_healthy_only_after_hooks.
+
+(* ---- the hooks behind the verdict (Model/AcceptHooks.v): every accept / dial carries the outcome
+        of each PostAccept / PostDial plugin of the peer - nil, a status object, a panic ---- *)
+(* The runner (postAccept / postDial with its recover) reports success iff every plugin returned
+   an OK status; [pc] is the code of the status its recover() builds, which is not 0. *)
+Theorem C07_hook_verdict : forall pc outs, pc <> 0%Z ->
+  (verdict true pc outs = true <-> Forall (fun o => hout_ok o = true) outs).
+Proof. exact verdict_iff. Qed.
+Print Assumptions C07_hook_verdict.
+
+(* The first plugin that does not return OK decides: the plugins before it all agreed, nothing
+   behind it is called, and the runner returns that plugin's status - for a panic the status
+   built by the recover(). *)
+Theorem C07_hooks_stop_at_first_failure : forall pc outs,
+  forallb hout_ok outs = false ->
+  exists pre o post, outs = pre ++ o :: post /\ forallb hout_ok pre = true /\ hout_ok o = false /\
+    hooks_ran true pc outs = S (length pre) /\
+    hooks_code true pc outs = match o with HkStat c => c | _ => pc end.
+Proof. exact first_failure. Qed.
+Print Assumptions C07_hooks_stop_at_first_failure.
+
+(* For every history of accepts (ServeConn or the listener loop), dials, SetIDs, closes, session
+   events: a session that is healthy, or whose read loop exists (it handles messages), or that
+   the index lists under its id, has had its plugins called ([hlog] = the calls made for it, in
+   order) and every one of them returned an OK status - none a non-OK status, none panicked. *)
+Theorem C07_live_only_if_every_hook_ok : forall es h n s,
+  hrun hpeer0 es = Some h -> nth_error (sessions (hp h)) n = Some s ->
+  st s = Ok \/ rd s <> RNone \/ idx_get (pindex (hp h)) (sid s) = Some n ->
+  exists outs, nth_error (hlog h) n = Some outs /\ Forall (fun o => hout_ok o = true) outs.
+Proof. exact live_only_if_every_hook_ok_lemma. Qed.
+Print Assumptions C07_live_only_if_every_hook_ok.
+
+(* The same runner with a recover() that does not reach the result (an unnamed result and a local
+   variable, the style of the other hook runners of plugin.go; seeded change C07-r5m1): the second
+   of three plugins panics, and the session is healthy, indexed and reading. *)
+Theorem C07_live_only_if_every_hook_ok_unnamed_result_refuted :
+  exists h s, hrun_cfg false hpeer0 panic_accept_history = Some h /\
+              nth_error (sessions (hp h)) 0 = Some s /\ st s = Ok /\ rd s = R0 /\
+              idx_get (pindex (hp h)) 1%N = Some 0 /\
+              nth_error (hlog h) 0 = Some [HkOk; HkPanic].
+Proof. exact unnamed_result_refuted_lemma. Qed.
+Print Assumptions C07_live_only_if_every_hook_ok_unnamed_result_refuted.
+
+(* Non-vacuity: on the machine as it is the same accept is refused (its read loop cannot start),
+   and an accept whose three plugins return nil / an OK status object / nil is established. *)
+Example C07_panic_accept_refused :
+  exists h s, hrun hpeer0 panic_accept_history = None /\
+              hrun hpeer0 (firstn 1 panic_accept_history) = Some h /\
+              nth_error (sessions (hp h)) 0 = Some s /\ st s = Preparing /\ cl s = C0 /\ rd s = RNone /\
+              pindex (hp h) = [] /\ nth_error (hlog h) 0 = Some [HkOk; HkPanic].
+Proof. exact panic_accept_refused. Qed.
+
+Example C07_ok_accept_established :
+  exists h s, hrun hpeer0 [HAccept 1%N [HkOk; HkStat 0; HkOk]; HOther (PSess 0 (EReader true))] = Some h /\
+              nth_error (sessions (hp h)) 0 = Some s /\ st s = Ok /\ rd s = R0 /\
+              idx_get (pindex (hp h)) 1%N = Some 0 /\ nth_error (hlog h) 0 = Some [HkOk; HkStat 0; HkOk].
+Proof. exact ok_accept_established. Qed.
 
 (* A closed status is never left, whatever happens next on the peer. *)
 Theorem C07_closed_absorbing : forall es p e p' n s,
